@@ -320,6 +320,7 @@ func TestCheck(t *testing.T) {
 	ns.States, ns.Transitions = 6, ns.Evaluations
 	ns.Samples = append(ns.Samples, "ParseFields(nil, \"p\")", "NewStore(Structs: [{Value: &int}])")
 	failingLookups(rep)
+	repopulate(rep)
 	if err := rep.Write(env); err != nil {
 		t.Fatal(err)
 	}
@@ -677,6 +678,116 @@ func failingLookups(rep *report.Report) {
 			}
 			st.Close()
 			cancel()
+		}
+	}
+	sec.States, sec.Transitions = sec.Evaluations, sec.Evaluations
+}
+
+type fourKinds struct {
+	A string       `setec:"a"`
+	B []byte       `setec:"b"`
+	S setec.Secret `setec:"s"`
+	N int          `setec:"n,json"`
+	U string
+}
+
+// repopulate: a struct that has been populated once is populated again - under another prefix on the
+// same store, and from another store - and every tagged field, the handle included, must then hold
+// the value the second construction asks for.
+func repopulate(rep *report.Report) {
+	sec := rep.Add(&report.Section{Name: "populate-the-same-struct-twice", Engine: "enum", Exhaustive: true, Extra: map[string]int64{},
+		Rule: "a struct with a string, a []byte, a Secret handle, a ,json int and an untagged field is populated, then populated again under {the same prefix, another prefix} × {the same store, a second store after the first was closed} × {Apply, NewStore(Structs)}: each tagged field (the handle read through Get) equals the second construction's value for prefix/name; non-trivial = all"})
+	mk := func(gen int) *svc {
+		sv := &svc{vals: map[string][]byte{}}
+		for _, p := range []string{"p", "q"} {
+			sv.vals[p+"/a"] = []byte(fmt.Sprintf("a-%s-%d", p, gen))
+			sv.vals[p+"/b"] = []byte(fmt.Sprintf("b-%s-%d", p, gen))
+			sv.vals[p+"/s"] = []byte(fmt.Sprintf("s-%s-%d", p, gen))
+			sv.vals[p+"/n"] = []byte(fmt.Sprint(100*gen + len(p) + int(p[0])))
+		}
+		return sv
+	}
+	all := []string{"p/a", "p/b", "p/s", "p/n", "q/a", "q/b", "q/s", "q/n"}
+	for _, prefix2 := range []string{"p", "q"} {
+		for _, otherStore := range []bool{false, true} {
+			for _, via := range []string{"apply", "newstore"} {
+				sec.Evaluations++
+				sec.Nontrivial++
+				desc := fmt.Sprintf("second population: prefix %q, another store=%v, via %s", prefix2, otherStore, via)
+				var v fourKinds
+				v.U = "sentinel"
+				sv1 := mk(1)
+				st1, err := setec.NewStore(context.Background(), setec.StoreConfig{Client: sv1, Secrets: all, PollInterval: -1, Logf: func(string, ...any) {}})
+				if err != nil {
+					rep.Violate(sec.Name, "fields/harness: "+desc, err.Error(), nil)
+					continue
+				}
+				fs1, err := setec.ParseFields(&v, "p")
+				if err == nil {
+					err = fs1.Apply(context.Background(), st1)
+				}
+				if err != nil || v.A != "a-p-1" || v.S == nil || string(v.S.Get()) != "s-p-1" {
+					rep.Violate(sec.Name, "fields/first-population: "+desc, fmt.Sprintf("%s: first population: err=%v A=%q", desc, err, v.A), nil)
+					st1.Close()
+					continue
+				}
+				st2, sv2, gen := st1, sv1, 1
+				if otherStore {
+					st1.Close()
+					sv2, gen = mk(2), 2
+					st2, err = setec.NewStore(context.Background(), setec.StoreConfig{Client: sv2, Secrets: all, PollInterval: -1, Logf: func(string, ...any) {}})
+					if err != nil {
+						rep.Violate(sec.Name, "fields/harness: "+desc, err.Error(), nil)
+						continue
+					}
+				}
+				if via == "apply" {
+					var fs2 *setec.Fields
+					fs2, err = setec.ParseFields(&v, prefix2)
+					if err == nil {
+						err = fs2.Apply(context.Background(), st2)
+					}
+				} else {
+					var st3 *setec.Store
+					st3, err = setec.NewStore(context.Background(), setec.StoreConfig{Client: sv2, Structs: []setec.Struct{{Value: &v, Prefix: prefix2}}, PollInterval: -1, Logf: func(string, ...any) {}})
+					if st3 != nil {
+						defer st3.Close()
+					}
+				}
+				if err != nil {
+					rep.Violate(sec.Name, "fields/second-population-error: "+desc, desc+": "+err.Error(), nil)
+				} else {
+					want := func(n string) string { return string(sv2.vals[prefix2+"/"+n]) }
+					var got []string
+					if v.A != want("a") {
+						got = append(got, fmt.Sprintf("A=%q want %q", v.A, want("a")))
+					}
+					if string(v.B) != want("b") {
+						got = append(got, fmt.Sprintf("B=%q want %q", v.B, want("b")))
+					}
+					if v.S == nil || string(v.S.Get()) != want("s") {
+						h := "<nil>"
+						if v.S != nil {
+							h = string(v.S.Get())
+						}
+						got = append(got, fmt.Sprintf("handle S serves %q want %q", h, want("s")))
+					}
+					if fmt.Sprint(v.N) != want("n") {
+						got = append(got, fmt.Sprintf("N=%d want %s", v.N, want("n")))
+					}
+					if v.U != "sentinel" {
+						got = append(got, "untagged field changed")
+					}
+					if len(got) > 0 {
+						rep.Violate(sec.Name, "fields/stale-after-second-population: "+desc, fmt.Sprintf("%s (generation %d): %s", desc, gen, strings.Join(got, "; ")), map[string]any{"prefix2": prefix2, "other_store": otherStore, "via": via})
+					}
+				}
+				if otherStore {
+					st2.Close()
+				} else {
+					st1.Close()
+				}
+			}
 		}
 	}
 	sec.States, sec.Transitions = sec.Evaluations, sec.Evaluations
